@@ -1,7 +1,6 @@
 (* C17: what a run is responsible for, what it may touch, the verdict predicates the check evaluates
-   on observed file systems, and the finding class of the unchanged tree.  All computable.
+   on observed file systems, and the (now empty) finding classification.  All computable.
    Uses only the data types of Model/Writer.v (fs, outputs, fs_read, content); never the writer. *)
-From Coq Require Import String.
 From TS Require Import Model.Str Model.Writer.
 
 (* the crates whose generation completed before the first failure, in order *)
@@ -63,21 +62,11 @@ Fixpoint distinct_paths (l : list fpath) : bool :=
   end.
 Definition dom_C17 (o : outputs) : bool := distinct_paths (may_touch o).
 
-(* Finding class of the unchanged tree: write_codable_file compares the file with
-   get_codable_contents() but writes that string plus a newline, so the comparison can never
-   succeed on a file typeshare wrote: Codable.swift is rewritten by every successful run. *)
-Definition rewritten_each_run (o : outputs) : list fpath :=
-  match o with
-  | MultiFile folder crates (Some _) => if all_generated crates then [codable_path folder] else []
-  | _ => []
-  end.
-
-Definition cls17 (s : string) : option str := Some (lit s).
-Definition known_C17 (o : outputs) : option str :=
-  match rewritten_each_run o with
-  | [] => None
-  | _ => cls17 "C17-swift-codable-rewritten"
-  end.
+(* Finding classes: none is open.  The class C17-swift-codable-rewritten (write_codable_file compared
+   Codable.swift with the contents minus the newline it writes, so every run rewrote the file) was
+   repaired in /repo by 0622333; the model follows the repaired code and the theorems carry no
+   carve-out.  The function stays so that the check's verdict plumbing is the same as everywhere. *)
+Definition known_C17 (o : outputs) : option str := None.
 
 (* ---- verdict predicates on observations ---- *)
 Definition file_eqb (a b : option file) : bool :=
